@@ -266,9 +266,13 @@ static void cond_signaller(caller_t *c)
                 CHK(ABT_cond_broadcast(g_cv));
                 expect = g_cs.success + p; /* at least the untimed ones present */
             } else {
-                EV("\"e\":\"Signal\",\"t\":%d,\"at\":%d", c->id, rel_us());
-                CHK(ABT_cond_signal(g_cv));
-                expect = g_cs.success + 1;
+                /* one signal, or as many signals in a row as waiters are certainly present */
+                int nsig = (p >= 2 && rnd(2)) ? 2 + (p >= 3 && rnd(2)) : 1;
+                for (int k = 0; k < nsig; k++) {
+                    EV("\"e\":\"Signal\",\"t\":%d,\"at\":%d", c->id, rel_us());
+                    CHK(ABT_cond_signal(g_cv));
+                }
+                expect = g_cs.success + nsig;
             }
             EV("\"e\":\"Rel\",\"t\":%d", c->id);
         }
@@ -292,11 +296,20 @@ static void scn_cond(int timed_mode)
     g_holders = 0;
     g_t0 = abtv_now_ns();
     abtv_clock_tick_ns(1000);
-    CHK(ABT_mutex_create(&g_m));
+    if (rnd(4) == 0) {
+        /* a recursive mutex, locked once by each waiter */
+        ABT_mutex_attr ma;
+        CHK(ABT_mutex_attr_create(&ma));
+        CHK(ABT_mutex_attr_set_recursive(ma, ABT_TRUE));
+        CHK(ABT_mutex_create_with_attr(ma, &g_m));
+        CHK(ABT_mutex_attr_free(&ma));
+    } else
+        CHK(ABT_mutex_create(&g_m));
     CHK(ABT_cond_create(&g_cv));
     assign_kinds(nw + 1, 1, 0);
     g_cs.nwaiters = nw;
     int all_timed = timed_mode && rnd(3) == 0;
+    int ext_heavy = timed_mode && rnd(4) == 0;
     for (int i = 0; i < nw; i++) {
         caller_t *c = &g_c[i];
         c->body = cond_waiter;
@@ -306,6 +319,13 @@ static void scn_cond(int timed_mode)
         c->x[1] = cls == 0 ? -5 : cls == 1 ? 3 + rnd(20) : cls == 2 ? 40 + rnd(200) : 100000000;
         c->x[2] = rnd(2);
         c->x[3] = (timed_mode && rnd(3) == 0) ? 250 + rnd(150) : 0;
+        if (ext_heavy) {
+            /* external threads sleeping (futex) in timed waits with far deadlines */
+            c->kind = K_EXT;
+            c->x[0] = 1;
+            c->x[1] = 100000000;
+            c->x[3] = 0;
+        }
     }
     caller_t *s = &g_c[nw];
     s->body = cond_signaller;
